@@ -269,6 +269,12 @@ def classify(s, code, verdict):
         return "symbolic-operator-glued-to-next-token", sorted(allr) + ["glue"]
     if okb and T.has_nested_prefix(s):
         return "nested-prefix-operators-misparsed", sorted(allr) + ["nested-prefix"]
+    if okb and verdict["outcome"] == "err" and any(
+            t[0] == "bin" and t[3] == "yfx" and T.core(t[4])[0] == "bin" and T.core(t[4])[2] == t[2] and T.core(t[4])[3] == "xfx"
+            for t in T.stmt_terms(s)):
+        # a=<b=>c : standard reading (a=<b)=>c; PrologParser.fold picks the first of two equal-priority operators
+        # unless the first one is yfx, and then reports a priority clash
+        return "same-priority-xfx-left-operand-of-yfx-rejected-by-parser", sorted(allr) + ["xfx-under-yfx"]
     return None, sorted(allr)
 
 
@@ -308,6 +314,8 @@ def variants(t):
     atom = ("app", "a", [])
     if t != atom and t[0] != "var":
         yield atom
+    if t[0] == "var" and t[1] != "X":
+        yield ("var", "X")
     for c in children(t):
         yield c
     for i, c in enumerate(children(t)):
@@ -350,7 +358,7 @@ def stmt_variants(s):
 
 
 def measure(s):
-    return (stmt_size(s), len(T.p_stmt(s)))
+    return (stmt_size(s), len(T.p_stmt(s).encode("utf8")))
 
 
 def shrink_stmt(s, bad, budget=300):
@@ -682,17 +690,35 @@ FIXED_SOURCES = [
     "x :- X is (2^3)*4.", "0.5::(a=b).", "x :- f(not a).", "x :- a \\=@= b.", "x :- X = -[1].", "x :- X is - - 1.", "a :- (b :- c).",
     "x((a:-b)).", "x :- X is 1 - (2 - 3).", "x :- X = 'hello world'.", "x :- X = [].", "x :- X = '[]'.", "x :- X = (+).",
     "x :- \\+ (a,b).", "x :- X is - (1).", "x :- X = (a,b).", "x :- Y = f((a,b)).", "x :- X = \"a b\".", "0.3::a; 0.7::b :- c, \\+ d.",
-    "x :- X = [a,b|T].", "x :- X is 2 ** -1.", "x :- X = a:b:c.", "x :- X = -(1).", "x :- X = - a.", "x :- X = 1 - -1.",
+    "x :- X = [a,b|T].", "x :- X is 2 ** -1.", "x :- (a =< b) => c.", "x :- X = a:b:c.", "x :- X = -(1).", "x :- X = - a.", "x :- X = 1 - -1.",
 ]
 FIXED_TEXTS = ["a <.", "a :- b <.", "x(", "x :- 'abc", "0.5::.", "a :- .", ":- .", "[", "]", "a b.", "p(X) :- X = [1,2|].", "a(1,).",
                "a :- b, .", "x :- avg<X>.", "p :- <X>.", "a < B > c.", "0x.", "1e.", "a.b.c.", "'\\'", "\"\\", "/*", "#!", ".", "..", ". .",
                "a:-b:-c.", "- - a.", "\\+.", "f(,).", "f(|).", "[|].", "[a|].", "[a|b|c].", "(.", ").", "a ::.", ":: a.", "~ a.", "a ~.",
                "X.", "1.", "\"s\".", "[].", "[a].", "(a).", "a , b.", "a ; b.", "a | b.", "a & b.", "not.", "not not a.", "is.", "a is.",
-               "is a.", "mod(1,2).", "a mod.", "p(-).", "p(- , -).", "p(:-).", "p((:-)).", ":- :- a.", "a :- :- b.", "a<-b<-c.", "a-->b-->c."]
+               "is a.", "mod(1,2).", "a mod.", "p(-).", "p(- , -).", "p(:-).", "p((:-)).", ":- :- a.", "a :- :- b.", "a<-b<-c.", "a-->b-->c.",
+               "max<X>.", ";:-a.", ":-.", "a:-().", "().", "0.5::().", "influences(X<X>,YY):-a.", "\\+ 1 :- a.", "0.5::not 1.", "p(avg<X>) :- q(X).",
+               "f().", "a(()).", "[()].", "a :- b, ().", "a :- findall(1,X,_).", "():-a."]
+
+
+# Clause objects inside terms are not in the model's AST: judged here only
+FIXED_NESTED = ["a :- (b :- c).", "x((a:-b)).", "x :- assertz((a:-b))."]
 
 
 def run_fixed(ctx):
     stats = collections.Counter()
+    for src in FIXED_NESTED:
+        r = parse_text(src)
+        ctx.case(("fixed", src), True)
+        if r[0] != "ok" or len(r[1]) != 1:
+            continue
+        text = str(r[1][0])
+        r2 = parse_text(text + " .")
+        if not (r2[0] == "ok" and len(r2[1]) == 1 and T.canon(r2[1][0]) == T.canon(r[1][0])):
+            stats["nested_clause_fail"] += 1
+            ctx.violation("round trip fails: source %r prints as %r which re-parses to %s" % (src, text, r2[0] + " " + str(r2[1])[:120]),
+                          {"kind": "roundtrip", "source": src, "printed": text, "outcome": r2[0]},
+                          klass="clause-nested-in-term-printed-without-parentheses")
     for src in FIXED_SOURCES:
         r = parse_text(src)
         ctx.case(("fixed", src), True)
